@@ -134,9 +134,16 @@ func (u *provider) Headroom() int {
 }
 
 func (u *provider) SetDispatchPorts(start, end, redirect uint16) {
+	u.mu.Lock()
+	defer u.mu.Unlock()
 	u.dispatchStart = start
 	u.dispatchEnd = end
 	u.dispatchRedirect = redirect
+	if c := u.internalConnection; c != nil {
+		if il, ok := c.link.(*internalLink); ok {
+			il.dispatchStart, il.dispatchEnd, il.dispatchRedirect = start, end, redirect
+		}
+	}
 }
 
 // AddSvc adds the address for the given service.
@@ -975,7 +982,7 @@ func (l *internalLink) Resolve(p *router.Packet, dst addr.Host, port uint16) err
 		panic(fmt.Sprintf("unexpected address type returned from DstAddr: %s", dst.Type()))
 	}
 	// if port is outside the configured port range we send to the fixed port.
-	if port < l.dispatchStart && port > l.dispatchEnd {
+	if port < l.dispatchStart || port > l.dispatchEnd {
 		port = l.dispatchRedirect
 	}
 
